@@ -469,6 +469,10 @@ class ModuleNormalizer:
                         i += 1
                         continue
                     h, recv, skip = r
+                    if any(isinstance(n, ast.While) for n in ast.walk(h)):
+                        # an iterative algorithm of its own: kept as a function (the rules look at it as one)
+                        i += 1
+                        continue
                     if _is_generator(h) or h is node or any(isinstance(n, ast.Call) and self._resolve(n, q, cls) and self._resolve(n, q, cls)[0] is h for n in ast.walk(h)):
                         i += 1
                         continue
